@@ -18,6 +18,8 @@ func detProfile() vcase.Profile {
 		Outcomes:   []string{"success", "success", "success", "error", "alt", "crash", "bad_output"},
 		DeployFail: true, DeployOdd: true, Foreach: true, Tags: true, Enabled: true, WaitFor: true, DeployTag: true,
 		Funcs: true, EngineOuts: true, MaxOutputs: 4, MaxDelayMs: 12,
+		// classes that were excluded while findings K2s / K3 were open (fixed now)
+		IntArithOnOutputs: true, StructFieldRefs: true, LiteralEnabled: true,
 	}
 }
 
